@@ -3,7 +3,7 @@
    invariant of the data collection, which implies C06's `Inv`) is in C06/Lemmas.v; max_undo / stack_keep are
    regenerated from glue/core/command.py into gen/Gen_command.v on every check. *)
 From Coq Require Import ZArith List Bool.
-From GV Require Import C06.Model C06.Lemmas gen.Gen_command gen.Gen_cmdstack C13.Model C13.Spec C13.Lemmas C13.Examples.
+From GV Require Import gen.Gen_groups gen.Gen_combine gen.Gen_commands C06.Model C06.Lemmas C06.GenEquiv gen.Gen_command gen.Gen_cmdstack C13.Model C13.Spec C13.Lemmas C13.Examples.
 From GV Require Import Common.PyInt.
 Import ListNotations.
 Open Scope Z_scope.
@@ -116,3 +116,87 @@ Theorem collection_invariant_through_history : forall pool ncol pre ed m ops,
   Inv (base (srun (start (run (init pool ncol) pre) ed m) ops)).
 Proof. exact Lemmas3.collection_invariant_through_history. Qed.
 Print Assumptions collection_invariant_through_history.
+
+(* ===================== the commands themselves, translated from the source =====================
+   gen/Gen_commands.v is regenerated on every check from glue/core/command.py (do/undo of AddData, RemoveData, ApplyROI,
+   ApplySubsetState, _snapshot_subsets, _restore_subsets), glue/core/edit_subset_mode.py (EditSubsetMode.update,
+   _combine_data, the edit_subset setter, _broadcast) and DataCollection.__contains__, statement by statement, over the heap of
+   gen/Gen_groups.v (C06's translation of DataCollection / SubsetGroup) and the mode functions of gen/Gen_combine.v.
+   gcmd_do / gcmd_undo dispatch to these functions; gstack_do / gstack_undo / gstack_redo / gsrun put them on the two stacks
+   (C13/Model.v).  SRel / GRel (C13/GenEquiv1.v, GenEquiv.v): the generated session shows the same collection, groups,
+   members, selections, edit choice and mode as the hand-model session, and the stacks hold the same commands, each command
+   object carrying exactly the record the hand model's memo holds. *)
+
+(* the mode functions of edit_subset_mode.py (as translated by gen_combine) are the hand model's `combine` *)
+Theorem generated_modes_are_combine : forall m old e, mode_fn P13 (mode_of m) old e = combine m e old.
+Proof. exact GenEquiv2.mode_fn_combine. Qed.
+Print Assumptions generated_modes_are_combine.
+
+(* do() of every translated command is the hand model's cmd_do: it does not raise when the dataset of an AddData exists, leaves
+   a session related to the hand model's, and records on the command object what the hand model's memo holds *)
+Theorem generated_do_refines_model : forall tbl N ss s k c,
+  SRel tbl ss s -> Core (base s) -> next_did (base s) = N -> valid_cmd N k c ->
+  exists c' ss' tbl', gcmd_do k c ss = CDone c' ss' /\
+    SRel tbl' ss' (fst (cmd_do (cmd_of k c) s)) /\ Ext tbl (s_next_lid ss) tbl' (s_next_lid ss') /\
+    crel tbl' (s_next_lid ss') N (k, c') (cmd_of k c, snd (cmd_do (cmd_of k c) s)).
+Proof. exact GenEquiv.gcmd_do_sim. Qed.
+Print Assumptions generated_do_refines_model.
+
+(* undo() of every translated command that carries the record of its do() is the hand model's cmd_undo, and never raises *)
+Theorem generated_undo_refines_model : forall tbl N ss s k c cm mm,
+  SRel tbl ss s -> Core (base s) -> next_did (base s) = N -> crel tbl (s_next_lid ss) N (k, c) (cm, mm) ->
+  exists ss', gcmd_undo k c ss = CDone c ss' /\ SRel tbl ss' (cmd_undo cm mm s) /\ s_next_lid ss' = s_next_lid ss.
+Proof. exact GenEquiv.gcmd_undo_sim. Qed.
+Print Assumptions generated_undo_refines_model.
+
+(* from any heap the translated DataCollection can be in (C06: Sim), with any selections, edit choice and mode: the machine made
+   of the translated commands never raises on a history whose AddData arguments exist, and stays related to the hand model run
+   on the same history -- so every theorem above is a theorem about the translated code *)
+Theorem generated_machine_refines_model : forall h gst ed m ops, Sim h -> Forall (valid_op (h_next_did h)) ops ->
+  exists st gs tbl, Rel h st /\ Core st /\
+    gsrun (gstart h gst ed m) ops = inl gs /\
+    GRel tbl (h_next_did h) gs (srun (start (with_states gst st) ed (emode_of m)) (map sop_of ops)).
+Proof. exact GenEquiv.gen_refines_model. Qed.
+Print Assumptions generated_machine_refines_model.
+
+(* the undo history of the translated machine never exceeds MAX_UNDO, nor do both stacks together *)
+Theorem generated_stack_bounds : forall h gst ed m ops, Sim h -> Forall (valid_op (h_next_did h)) ops ->
+  exists gs, gsrun (gstart h gst ed m) ops = inl gs /\
+    (length (g_cmds gs) <= Z.to_nat max_undo)%nat /\ (length (g_cmds gs) + length (g_undone gs) <= Z.to_nat max_undo)%nat.
+Proof. exact GenEquiv.gen_stack_bounds. Qed.
+Print Assumptions generated_stack_bounds.
+
+Theorem generated_do_clears_redo : forall k c gs gs', gstack_do k c gs = inl gs' -> g_undone gs' = [].
+Proof. exact GenEquiv.gen_do_clears_redo. Qed.
+Print Assumptions generated_do_clears_redo.
+
+(* after ANY history of translated commands: executing a command and undoing it gives back exactly the observable state the
+   command found (datasets, groups, selection of every group, edit choice, mode); redoing it gives back the state it had
+   produced, up to the identity of a group the command creates *)
+Theorem generated_undo_redo_after_history : forall h gst ed m ops gs k c, Sim h -> Forall (valid_op (h_next_did h)) ops ->
+  gsrun (gstart h gst ed m) ops = inl gs -> valid_cmd (h_next_did h) k c ->
+  exists gs1 gs2 gs3, gstack_do k c gs = inl gs1 /\ gstack_undo gs1 = inl gs2 /\ gstack_redo gs2 = inl gs3 /\
+    g_same_obs (g_ss gs2) (g_ss gs) /\ g_obs_eq (g_ss gs3) (g_ss gs1).
+Proof. exact GenEquiv.gen_undo_redo_after_history. Qed.
+Print Assumptions generated_undo_redo_after_history.
+
+(* any depth: at every point of every history with something to redo, redo followed by undo gives back exactly the observable state *)
+Theorem generated_undo_inverts_redo_any_depth : forall h gst ed m ops gs, Sim h -> Forall (valid_op (h_next_did h)) ops ->
+  gsrun (gstart h gst ed m) ops = inl gs -> g_undone gs <> [] ->
+  exists gs1 gs2, gstack_redo gs = inl gs1 /\ gstack_undo gs1 = inl gs2 /\ g_same_obs (g_ss gs2) (g_ss gs).
+Proof. exact GenEquiv.gen_undo_inverts_redo_any_depth. Qed.
+Print Assumptions generated_undo_inverts_redo_any_depth.
+
+(* the property of C06, on the heap of the translated DataCollection, after every history of translated commands *)
+Theorem generated_collection_invariant : forall h gst ed m ops gs, Sim h -> Forall (valid_op (h_next_did h)) ops ->
+  gsrun (gstart h gst ed m) ops = inl gs -> HInv (s_heap (g_ss gs)).
+Proof. exact GenEquiv.gen_collection_invariant. Qed.
+Print Assumptions generated_collection_invariant.
+
+(* any depth, the other way round: at every point of every history with something to undo, undo followed by redo gives back the
+   observable state, up to the identity of a group the redone command creates *)
+Theorem generated_redo_inverts_undo_any_depth : forall h gst ed m ops gs, Sim h -> Forall (valid_op (h_next_did h)) ops ->
+  gsrun (gstart h gst ed m) ops = inl gs -> g_cmds gs <> [] ->
+  exists gs1 gs2, gstack_undo gs = inl gs1 /\ gstack_redo gs1 = inl gs2 /\ g_obs_eq (g_ss gs2) (g_ss gs).
+Proof. exact GenEquiv.gen_redo_inverts_undo_any_depth. Qed.
+Print Assumptions generated_redo_inverts_undo_any_depth.
